@@ -240,6 +240,36 @@ Proof.
     + vm_compute. reflexivity.
 Qed.
 
+(* Get is pure: a Get -- answered by an exact key, by the legacy-key scan or not
+   at all -- leaves memory (auths cache, content, credsStore) and file exactly
+   as they were; so does any sequence of Gets *)
+Theorem C18_get_pure :
+  forall (enc : str -> str) (dec : str -> option str) st,
+    (forall a, fst (step enc dec st (Get a)) = st) /\
+    (forall h, Forall is_get h -> run enc dec st h = st).
+Proof. intros enc dec st. split; [exact (get_pure enc dec st)|intro h; exact (gets_pure enc dec h st)]. Qed.
+Print Assumptions C18_get_pure.
+
+(* the saved file is owner-only whatever file (and whatever permission bits) was
+   at the config path before: 0600 after the save, and at every crash cut the
+   path holds the untouched old file or a file of mode 0600 *)
+Theorem C18_mode_owner_only :
+  forall (dir p t : path) (chunks : list str),
+    t <> p -> forall s,
+    fget t s = None ->
+    (forall f, fget p (exec_all s (save_steps dir p t chunks)) = Some f -> f_mode f = mode_file) /\
+    (exists f, fget p (exec_all s (save_steps dir p t chunks)) = Some f) /\
+    (forall pre f, crash_cut (save_steps dir p t chunks) pre ->
+                   fget p (exec_all s pre) = Some f -> fget p (exec_all s pre) <> fget p s -> f_mode f = mode_file).
+Proof. exact mode_owner_only. Qed.
+Print Assumptions C18_mode_owner_only.
+
+Example C18_example_mode :
+  let s := {| fs_files := [(b "cfg", {| f_data := b "old"; f_mode := 438 |})]; fs_dirs := [] |} in
+  fget (b "cfg") (exec_all s (save_steps (b "d") (b "cfg") (b "tmp") [b "new"]))
+  = Some {| f_data := b "new"; f_mode := 384 |}.
+Proof. vm_compute. reflexivity. Qed.
+
 (* the defect this check found (fixed on the repository branch): before the fix
    a config file holding the JSON value null made the first save panic *)
 Theorem C18_null_document_refuted :
